@@ -43,7 +43,8 @@ def _read(R, data, chunks, plans):
     r = R(data)
     r.chunked_reading_mode = True
     out = []
-    for ch, pl in zip(chunks, plans):
+    for i, pl in enumerate(plans):
+        ch = chunks[i] if i < len(chunks) else []
         rets = []
         for rc in _plan_reads(ch, pl):
             ret, exc = do_read(r, rc)
@@ -58,7 +59,9 @@ def observe(W, R, chunks, plans, salt=0):
     data, fb = _write(W, chunks, salt)
     results = _read(R, data, clean, plans)
     alone = []
-    for ch, cl, pl in zip(chunks, clean, plans):
+    for i, pl in enumerate(plans):
+        ch = chunks[i] if i < len(chunks) else []
+        cl = clean[i] if i < len(clean) else []
         d1, _ = _write(W, [ch], salt)
         alone.append(_read(R, d1, [cl], [pl])[0])
     return {"chunks": clean, "plans": plans, "fieldbytes": fb, "results": results, "alone": alone}
@@ -91,6 +94,8 @@ def _rand_case(rng):
                             {"op": "get_fixed_encoded_string", "n": rng.randrange(0, 6), "padded": False}])
             extra.append(e)
         plans.append({"k": rng.choice([len(ch), len(ch), rng.randrange(0, len(ch) + 1)]), "extra": extra})
+    if rng.random() < 0.3:       # ask for one chunk more than was written
+        plans.append({"k": 0, "extra": [rng.choice([{"op": "get_char"}, {"op": "get_int"}, {"op": "get_string"}, {"op": "get_byte"}])]})
     return chunks, plans
 
 
@@ -145,7 +150,7 @@ def run(tier, corrupt=False):
                     row = blk["rows"][rowi - 1]
                     ops = [[f["op"] + str(f.get("s", f.get("n", ""))) for f in ch] for ch in row["chunks"]]
                     key = f"{CODE[code]} chunk {c} of {ops} plans={[(p['k'], [e['op'] for e in p['extra']]) for p in row['plans']]}"
-                    v.violation(key[:400], f"{CODE[code]} fails for chunk {c}: field bytes={row['fieldbytes'][c - 1]} results={row['results'][c - 1]} alone={row['alone'][c - 1]}",
+                    v.violation(key[:400], f"{CODE[code]} fails for chunk {c}: field bytes={row['fieldbytes'][c - 1] if c <= len(row['fieldbytes']) else 'none (chunk never written)'} results={row['results'][c - 1]} alone={row['alone'][c - 1]}",
                                 {"chunks": row["chunks"], "plans": row["plans"], "chunk": c, "code": code})
     cov.update({"traces_validated_against_impl": checked, "tlc_behaviours": len(beh), "random_cases": nrand, "samples": samples, "exhaustive": False,
                 "explanation": "exhaustive over the MC_EoChunks alphabets (chunks grown field by field, every plan of the earlier chunks); random: up to 8 "
